@@ -83,7 +83,13 @@ class Check(PropertyCheck):
                   "not proved about the real dummy_cert; whether it raises on an empty CN is probed on every run; organization "
                   "and crl_url are passed in the tie but are not part of the store's key and not stored in the model (the "
                   "certificate's organization is not predicted); names are ASCII; add_cert is exercised with custom "
-                  "(non-generated) entries only.")
+                  "(non-generated) entries only. Lenient branches of the oracle (each with a near-miss in known_selftest, run "
+                  "from setup): (1) get_cert raising is excused only for real signing + empty CN + the probe saw dummy_cert "
+                  "raise; (2) the subject may lack the CN only when the requested CN is empty or has 64+ characters (SANs are "
+                  "never excused); (3) a repeated request may change its answer only if a registration under a name matching "
+                  "that request happened in between (before the audit: after ANY add_cert) or the entry was evicted; (4) a "
+                  "custom answer needs a registration of that certificate under a matching name at some earlier time (the "
+                  "statement does not say 'latest'); (5) asterisk_forms cases: oracle checks forms are allowed, equality is the tie.")
     technique = "Lean 4 proof (invariants over operation histories) + differential model-vs-code correspondence + STORE_CAP translator"
     rule = ("a case is one history (<=320 ops) of get_cert / add_cert over 13 names (incl. the empty name, upper case and two "
             "names of >= 64 characters, whose CN dummy_cert leaves out of the subject) x {CN, DNS SAN, IP SAN}, sans passed as "
@@ -113,6 +119,7 @@ class Check(PropertyCheck):
                 f"def storeCap : Nat := {cap}\n\nend MitmVerif.Gen.C17\n"}
 
     def setup(self, tier):
+        self.known_selftest()
         if Check._ca is None:
             key, ca = certs.create_ca("verif", "verif", 2048)
             Check._ca = (key, certs.Cert(ca), certs.dummy_crl(key, ca))
@@ -285,6 +292,7 @@ class Check(PropertyCheck):
         last = {}              # request key -> (kind, id, generation count when returned, #adds when returned)
         gen_index = {}         # generated id -> how many had been generated when it was created (1-based)
         ngenerated = nadds = 0
+        add_log = []           # (running number of the add_cert, the names it registered)
         for i, (op, r) in enumerate(zip(case["ops"], obs["ops"])):
             # "the store keeps at most its fixed capacity of generated certificates"
             if r["qlen"] > cap or r["ngen"] > cap or r["ndist"] > cap:
@@ -296,18 +304,20 @@ class Check(PropertyCheck):
                 if cn: reg.add(cn)
                 reg.update(v for _, v in sans); reg.update(op["names"])
                 nadds += 1
+                add_log.append((nadds, ({cn} if cn else set()) | {v for _, v in sans} | set(op["names"])))
                 continue
             if r["r"] == "err":
                 if not (case["real"] and op["cn"] == "" and Check._empty_cn_raises):
                     fails.append(f"op {i}: get_cert raised")
                 continue
             key = (op["cn"], tuple(map(tuple, op["sans"])))
+            wanted = ([op["cn"]] if op["cn"] else []) + [v for k, v in op["sans"] if k == 0]
+            exact = [v for k, v in op["sans"] if k != 0]
+            matches = lambda names: any(k == "*" or any(wild_ok(k, n) for n in wanted) or k in exact for k in names)
             if r["r"] == "c":
                 # "a registered custom certificate matching one of the requested names (exactly or by the store's wildcard rules)"
-                wanted = ([op["cn"]] if op["cn"] else []) + [v for k, v in op["sans"] if k == 0]
-                exact = [v for k, v in op["sans"] if k != 0]
                 regs = registered.get(r["id"], set())
-                if not any(k == "*" or any(wild_ok(k, n) for n in wanted) or k in exact for k in regs):
+                if not matches(regs):
                     fails.append(f"op {i}: custom certificate c{r['id']} (registered as {sorted(regs)}) returned for {op['cn']!r} {op['sans']}")
             else:
                 # "or a generated one for exactly the requested names"
@@ -320,11 +330,49 @@ class Check(PropertyCheck):
             if key in last:
                 kind0, id0, adds0 = last[key]
                 cached = kind0 == "c" or ngenerated - (1 if r["r"] == "g" and r["fresh"] else 0) < gen_index[id0] + cap
-                if adds0 == nadds and cached and (kind0, id0) != (r["r"], r["id"]):
+                # excused only by a registration in between under a name that matches THIS request (it may legitimately
+                # take over); any other add_cert must not disturb the answer
+                taken_over = any(n > adds0 and matches(names) for n, names in add_log)
+                if not taken_over and cached and (kind0, id0) != (r["r"], r["id"]):
                     fails.append(f"op {i}: repeated request {op['cn']!r} {op['sans']} returned {r['r']}{r['id']} instead of the cached {kind0}{id0}")
             last[key] = (r["r"], r["id"], nadds)
             if fails: break
         return fails
+
+    def known_selftest(self):
+        """doctored observations just inside / outside every lenient branch of the oracle (independent of the tree)"""
+        def g(i, fresh, cn, sans, q): return {"r": "g", "id": i, "fresh": fresh, "qlen": q, "ngen": q, "ndist": q, "cert_cn": cn, "cert_sans": sans}
+        def run(real, ops, rs): return self.oracle({"real": real, "ops": ops}, {"cap": 100, "ops": rs})
+        get = lambda cn, sans: {"op": "get", "cn": cn, "sans": sans}
+        S = [[0, "www.example.com"]]
+        # (a) get_cert raising: excused only for the real dummy_cert, an empty CN, and only if the probe saw it raise
+        err = {"r": "err", "qlen": 0, "ngen": 0, "ndist": 0}
+        saved = Check._empty_cn_raises
+        try:
+            Check._empty_cn_raises = True
+            assert run(1, [get("", S)], [err]) == []
+            assert run(0, [get("", S)], [err]) and run(1, [get("x", S)], [err]) and run(1, [get(None, S)], [err])
+            Check._empty_cn_raises = False
+            assert run(1, [get("", S)], [err]), "not excused when the probe says dummy_cert accepts an empty CN"
+        finally:
+            Check._empty_cn_raises = saved
+        # (b) the subject may lack the CN only if it is empty or has 64+ characters; the SANs are never excused
+        assert run(1, [get(LONG, S)], [g(0, 1, None, S, 1)]) == [] and run(1, [get("", S)], [g(0, 1, None, S, 1)]) == []
+        assert run(1, [get("a" * 63, S)], [g(0, 1, None, S, 1)]), "near miss: 63 characters"
+        assert run(1, [get(LONG, S)], [g(0, 1, LONG, S, 1)]) and run(1, [get(LONG, S)], [g(0, 1, None, [[0, "example.com"]], 1)])
+        assert run(0, [get("example.com", S)], [g(0, 1, "example.com", S + S, 1)]), "extra SAN"
+        # (c) repeated request: only a registration matching the request in between excuses a different answer
+        a_rel = {"op": "add", "cid": 3, "names": ["*.example.com"]}
+        a_unrel = {"op": "add", "cid": 3, "names": ["*.org"]}
+        ok = {"r": "ok", "qlen": 1, "ngen": 1, "ndist": 1}
+        r0, r1 = g(0, 1, "example.com", S, 1), g(1, 1, "example.com", S, 2)
+        assert run(0, [get("example.com", S), a_rel, get("example.com", S)], [r0, ok, {"r": "c", "id": 3, "qlen": 1, "ngen": 1, "ndist": 1}]) == []
+        assert run(0, [get("example.com", S), a_unrel, get("example.com", S)], [r0, ok, r1]), "near miss: unrelated add_cert in between"
+        assert run(0, [get("example.com", S), get("example.com", S)], [r0, r1]), "regenerated while cached"
+        assert run(0, [get("example.com", S), a_unrel, get("example.com", S)], [r0, ok, {"r": "c", "id": 3, "qlen": 1, "ngen": 1, "ndist": 1}]), \
+            "custom certificate registered only under an unrelated name"
+        # (d) the bound
+        assert run(0, [get("example.com", S)], [g(0, 1, "example.com", S, 101)])
 
     # ---- the model ---------------------------------------------------------------------------
     @staticmethod
